@@ -342,6 +342,14 @@ fn note(kind: &'static str, what: &str) {
                 return;
             }
             with(|c| {
+                if kind == "born" {
+                    // a new heap object: virtual park tokens of a dead object at the same address must not leak into it
+                    let mut it = what.split_whitespace();
+                    let _k = it.next();
+                    let p: usize = it.next().and_then(|s| s.parse().ok()).unwrap_or(0);
+                    let sz: usize = it.next().and_then(|s| s.parse().ok()).unwrap_or(0);
+                    c.tokens.retain(|a, _| *a < p || *a >= p + sz);
+                }
                 let a = c.names[me].clone();
                 c.log.push(note_raw(a, kind, what))
             });
